@@ -180,14 +180,14 @@ def check(run):
             oracle_fail.append((cfg, l[:300], f"bytes requested <= {MAXSTR} + {K1}*{len(t)} + {K0}", o[-200:]))
     if crash:
         run.violation("C06: library crashed on an instrumented-allocator deserialization: " + crash[:300], dict(kind="input", cfg=cfg, harness_src="doc_h", observed=crash[-2000:]))
-    # the string builder and the string pool node by node (Model/StrBuild.v): for every script the library's results (length
+    # the string builder (JSON reader) and the string buffer (MessagePack reader) with the string pool, node by node (Model/StrBuild.v): for every script the library's results (length
     # field, reference count, bytes) and its exact sequence of allocator calls (sizes, outcome) must be the model's
     for sdefs in ({}, {"ARDUINOJSON_STRING_LENGTH_SIZE": 1}, {"ARDUINOJSON_SLOT_ID_SIZE": 1, "ARDUINOJSON_STRING_LENGTH_SIZE": 4}):
         pimpl = vlib.need_harness("pool_h", cfg, sdefs)
         io, c0 = vlib.run_lines(pimpl, ["CFG " + cfg, "SBG"])
         hdr, mx = io[1].split()
         scripts = sb_scripts(rnd, 1500 if thorough else 250, int(mx))
-        sl = [f"SB {hdr} {mx} {ans} " + " ".join(ops) for ans, ops in scripts]
+        sl = [f"SB {hdr} {mx} {ans} " + " ".join(ops) for ans, ops in scripts] + [f"SBF {hdr} {mx} {ans} " + " ".join(ops) for ans, ops in scripts]
         mo, mcrash = vlib.run_sharded(model, sl, None, 900, ["CFG " + cfg])
         if mcrash:
             raise vlib.Broken("model driver crashed: " + mcrash[:300])
@@ -200,6 +200,8 @@ def check(run):
             if o == "<crash>":
                 continue
             body, _, tail = o.partition(" leaked=")
+            if l.startswith("SBF "):
+                m = m.rpartition(" scratch=")[0]       # (whether the buffer still holds a node is not visible from outside: the live-block count is)
             if body != m:
                 ms, os_ = m.split(" "), body.split(" ")
                 k = next((i for i, (x, y) in enumerate(zip(ms, os_)) if x != y), min(len(ms), len(os_)))
